@@ -269,6 +269,18 @@ func (d *Driver) judgeC07() {
 		}
 		d.judgedInc("C07")
 		in := d.inst(t.Inst)
+		// a term during which the application cancelled the context it gave to Start is ending by
+		// the application's own doing (its refreshes stop at once, the claim goes when the library's
+		// reaction is scheduled): not a term whose stability C07 speaks about
+		byCancel := false
+		for _, a := range d.h.Apis {
+			if a.Inst == t.Inst && a.Gen == t.Gen && a.Kind == ACancelStart && a.SInv >= t.SStart && (t.Fall == nil || a.SInv <= t.SEnd) {
+				byCancel = true
+			}
+		}
+		if byCancel {
+			continue
+		}
 		if t.Fall != nil && !stopStack(t.EndStack) && t.SEnd < d.endStep {
 			d.h.violate("C07", "spurious-demotion/"+t.EndStack, fmt.Sprintf("i%d.%d led from %v and was demoted at %v by %s without being stopped (fault-free run)", t.Inst, t.Gen, t.Start, t.End, t.EndStack), t.End, t.SEnd)
 			continue
